@@ -47,19 +47,24 @@ class LifeSocket:
             raise OSError(errno.EBADF, "Bad file descriptor")
         return (self.bound[0], self.bound[1], 0, 0)
 
+    pending = []        # datagrams still to be delivered to a listening socket of this run
+
     def _recv(self):
         if self.closed:
             raise OSError(errno.EBADF, "Bad file descriptor")
         s = sched._current
         if s is not None:
             s.yield_now()
+        if LifeSocket.pending and self.bound is not None:
+            return LifeSocket.pending.pop(0)
         raise socket.timeout("timed out")
 
     def recvmsg(self, *a):
-        return self._recv()
+        data = self._recv()
+        return data, [], 0, ("::1", 40000, 0, 0)
 
     def recvfrom(self, *a):
-        return self._recv()
+        return self._recv(), ("::1", 40000, 0, 0)
 
     def sendto(self, *a):
         return 0
@@ -82,11 +87,29 @@ def _run_once(case, preempt):
     m = _server_module()
     n = len(case["threads"])
     LifeSocket.registry = []
+    busy = int(case.get("busy", 0))
+    LifeSocket.pending = [b"\x00\x01busy\x00octet\x00"] if busy else []
     events = []
+
+    class BusyHandler(m.TftpRequestHandler):
+        """a handler that takes long to decide (many turns of the scheduler) and then declines"""
+
+        def prepare_context(self, filename):
+            return None
+
+        def can_handle(self, filename, context):
+            s_ = sched._current
+            for _ in range(busy):
+                if s_ is not None:
+                    s_.yield_now()
+            return False
+
+        def handle(self, filename, client_address, server_address, context):
+            raise m.TftpError(m.ErrorCode.FILE_NOT_FOUND, "declined")
     socket.socket = LifeSocket
     try:
         with sched.coop_locks():
-            srv = m.TftpServer([], bind_address="::", bind_port=6969)
+            srv = m.TftpServer([BusyHandler()] if busy else [], bind_address="::", bind_port=6969)
         with sched.coop_threads():
 
             def snapshot():
@@ -102,6 +125,10 @@ def _run_once(case, preempt):
             def body(i):
                 def run():
                     for op in case["threads"][i]:
+                        if op == "pause":       # let the other threads (the request-port thread) have a few turns
+                            for _ in range(3):
+                                s.yield_now()
+                            continue
                         try:
                             getattr(srv, op)()
                             results[i].append("ok")
@@ -144,7 +171,7 @@ _steps_cache = {}
 
 
 def _total_steps(case):
-    key = json.dumps({k: case.get(k) for k in ("threads", "order")}, sort_keys=True)
+    key = json.dumps({k: case.get(k) for k in ("threads", "order", "busy")}, sort_keys=True)
     if key not in _steps_cache:
         _steps_cache[key] = _run_once(case, [])["steps"]
     return _steps_cache[key]
